@@ -231,6 +231,7 @@ class C11(core.Check):
 
     def prepare(self, fl):
         import rangesrv
+        self.pre_viol = []
         self.srv = rangesrv.Server(self.work)
         so = os.path.join(fl["plain"].dir, "preload_io.so")
         build._run(["gcc", "-O1", "-g", "-shared", "-fPIC", "-o", so, os.path.join(core.VERIF, "harness", "preload_io.c"), "-ldl"], what="preload_io.so")
@@ -238,7 +239,9 @@ class C11(core.Check):
 
     def post(self, verdicts, ctx):
         self.srv.stop()
-        return []
+        return list(self.pre_viol)
+
+    pre_viol = []
 
     def probe_real(self, ctx, sc, B, A, T0, si):
         """Fault-free run of the real zckdl under the shim: how many write(2) calls reach the target?"""
@@ -260,6 +263,13 @@ class C11(core.Check):
         for e in core.parse_log(os.path.join(d, "pl.log")):
             if e.get("ev") == "iocount" and e["cls"] == "target" and e["sys"] == "write":
                 n = e["n"]
+        if r.rc != 0 and n > 0:
+            # the real tool, not interrupted at all, does not complete the update from this starting state (absent target, or the
+            # partial target an earlier interruption would have left): that is the property failing, not the harness
+            self.pre_viol.append(core.verdict("rprobe%d" % si, "violated", ["c11:real:uninterrupted-update-failed:exit%s:%s" % (r.rc, "partial-target" if T0 is not None else "fresh-target")],
+                                              {"evaluations": 1}, detail="zckdl (no fault injected) exit %s on scenario %s: %r" % (r.rc, sc.get("name"), r.stderr[-300:]), cdir=d,
+                                              case={"real_probe": True, "sc": {k_: v_ for k_, v_ in sc.items() if k_ not in ("A", "B", "T0")}}))
+            return 0
         if r.rc != 0 or n == 0:
             raise RuntimeError("fault-free real zckdl run failed: rc=%s writes=%d %r" % (r.rc, n, r.stderr[-200:]))
         return n
@@ -340,6 +350,8 @@ class C11(core.Check):
             if si < (2 if self.quick else 20):
                 rsc = dict(sc, maxr=r.choice([1, 2, 7, 256]))
                 nreal = self.probe_real(ctx, rsc, B, A, T0, si)
+                if not nreal:
+                    continue
                 rpts = [(k, j) for k in range(1, nreal + 1) for j in (0, 1, -1, -2)]
                 self.count("real_zckdl_target_writes", nreal)
                 self.count("real_zckdl_kill_points_enumerated", len(rpts))
@@ -361,6 +373,8 @@ class C11(core.Check):
             T0 = bytes(d) if bi % 3 else None
             rsc = {"name": "rbig%d" % bi, "A": core.b64(A) if A else None, "B": core.b64(B), "T0": core.b64(T0) if T0 is not None else None, "maxr": r.choice([1, 3, 256])}
             nreal = self.probe_real(ctx, rsc, B, A, T0, 1000 + bi)
+            if not nreal:
+                continue
             ks = list(range(1, nreal + 1))
             if len(ks) > 60:
                 ks = sorted(r.sample(ks, 60))
